@@ -45,13 +45,12 @@ def plan(tier, seed):
                             dict(n=3, m=3, labels='ints', schemes='six', configs='parcons_solver', per=60),
                             dict(n=4, m=3, labels='ints', schemes='three', configs='parcons_solver', per=4000, maxk=512,
                                  sparse_third=True),
-                            dict(n=5, m=2, labels='ints', schemes='two', configs='parcons_solver', per=2000, maxk=256),
                             dict(n=4, m=2, labels=alt, schemes='two', configs='solver', per=60)],
             'stub': [dict(n=4, m=2, labels='ints', schemes='six', configs='solver', per=60),
                      dict(n=3, m=3, labels='ints', schemes='six', configs='parcons_solver', per=60),
                      dict(n=4, m=3, labels='ints', schemes='three', configs='parcons_solver', per=4000, maxk=512,
                           sparse_third=True),
-                     dict(n=5, m=2, labels='ints', schemes='two', configs='parcons_solver', per=2000, maxk=256)],
+                     dict(n=5, m=2, labels='ints', schemes='one', configs='parcons_solver', per=2000, maxk=256, flags='one')],
         }
     return cross.std_phases(by_mode)
 
